@@ -13,6 +13,7 @@ import (
 	"context"
 	"errors"
 	"fmt"
+	"net"
 	"runtime"
 	"strconv"
 	"strings"
@@ -130,6 +131,24 @@ func (o *c14HOp) mutator() bool {
 type c14Fault struct {
 	Thread string `json:"thread"`
 	Idx    int    `json:"idx"`
+	Class  string `json:"class,omitempty"` // "" plain error | timeout (net.Error, Timeout()=true) | deadline (context.DeadlineExceeded)
+}
+
+type c14NetTimeout struct{}
+
+func (c14NetTimeout) Error() string   { return "verif: injected i/o timeout" }
+func (c14NetTimeout) Timeout() bool   { return true }
+func (c14NetTimeout) Temporary() bool { return true }
+
+// c14FaultErr is the error a failing tier call returns for the fault's error class.
+func c14FaultErr(class string) error {
+	switch class {
+	case "timeout":
+		return &net.OpError{Op: "read", Net: "tcp", Err: c14NetTimeout{}}
+	case "deadline":
+		return fmt.Errorf("verif: injected: %w", context.DeadlineExceeded)
+	}
+	return vk.ErrInjected
 }
 
 type c14Cache struct {
@@ -405,7 +424,7 @@ func (w *c14World) hook(tier, op, key string) error {
 	}
 	w.log = append(w.log, rec)
 	if rec.Err {
-		return vk.ErrInjected
+		return c14FaultErr(w.fault.Class)
 	}
 	return nil
 }
@@ -438,6 +457,19 @@ func (w *c14World) awaitRawQuiescent() bool {
 		runtime.Gosched()
 		time.Sleep(20 * time.Microsecond)
 	}
+}
+
+// c14WritebackAlive reports whether a write-back goroutine of the facade exists.
+func c14WritebackAlive() bool {
+	buf := make([]byte, 1<<16)
+	n := runtime.Stack(buf, true)
+	for n >= len(buf) {
+		buf = make([]byte, 2*len(buf))
+		n = runtime.Stack(buf, true)
+	}
+	d := buf[:n]
+	return bytes.Contains(d, []byte("storage/hybrid.(*Storage).Get.func")) ||
+		bytes.Contains(d, []byte("storage/hybrid.(*Storage).getSharedPersistent.func"))
 }
 
 // awaitDone waits (bounded) until every expected write-back completed.
@@ -516,6 +548,8 @@ func (w *c14World) do(thread string, st c14Step) *c14HOp {
 		switch st.Kind {
 		case "set":
 			err = n.Set(w.key, st.Arg, c14TTL(st.TTL))
+		case "touch":
+			err = n.SetExpiration(w.key, time.Hour) // TTL refresh: not a write of the value
 		case "del":
 			err = n.Delete(w.key)
 		case "get":
